@@ -125,6 +125,7 @@ impl Prop for C03 {
         prop_oneof![
             4 => (arb_d(), arb_d(), 0u8..8).prop_map(|(x, y, mode)| Case { x, y: Rhs::Dec(y), mode }),
             3 => (arb_d(), arb_int(), any::<bool>(), 0u8..8).prop_map(|(x, i, l, mode)| Case { x, y: if l { Rhs::IntL(i) } else { Rhs::IntR(i) }, mode }),
+            2 => (arb_related_pair(), 0u8..8).prop_map(|((x, y), mode)| Case { x, y: Rhs::Dec(y), mode }),
             3 => tie_pair(),
             3 => exact_pair(),
             3 => quotient_edge(),
